@@ -29,6 +29,8 @@ def run(ctx):
         # an objective with NaN holes: the STRUCTURE of the tree does not depend on how NaN values are ordered
         # (seed provenance is compared by value and is left to the NaN-free runs)
         _nan_structure(ctx),
+        # a box of its own per level (the child's narrower): a population-based child still holds its sprout seed
+        runs.level_boxes_batch(ctx, PID, ctx.size(30, 300), 49),
     ]
 
 
